@@ -2,6 +2,7 @@ from __future__ import annotations
 
 from datetime import timedelta
 from typing import TYPE_CHECKING
+from typing import Any
 from typing import cast
 from typing import overload
 
@@ -464,6 +465,21 @@ class Duration(timedelta):
 
         return NotImplemented
 
+    def __reduce__(self) -> tuple[Any, ...]:
+        # timedelta reduces to (days, seconds, microseconds), which folds the
+        # years and months into the days and loses them.
+        return self.__class__, (
+            self._days,
+            self._seconds,
+            self._microseconds,
+            0,
+            0,
+            0,
+            0,
+            self._years,
+            self._months,
+        )
+
     def __deepcopy__(self, _: dict[int, Self]) -> Self:
         return self.__class__(
             days=self.remaining_days,
@@ -529,6 +545,9 @@ class AbsoluteDuration(Duration):
 
     def total_seconds(self) -> float:
         return abs(self._total)
+
+    def __reduce__(self) -> tuple[Any, ...]:
+        return timedelta.__reduce__(self)  # type: ignore[return-value]
 
     @property
     def invert(self) -> bool:
